@@ -60,6 +60,11 @@ func contentRule(info *runInfo, h *history, w *write) (string, *modelOut) {
 	if in == nil {
 		return why, nil
 	}
+	for i, from := range w.build.addrIf {
+		if g := h.byKey[genKey(w.node, w.ifn, w.gen)]; g != nil && g.index != 0 && w.build.addrIdx[i] != g.index {
+			return fmt.Sprintf("address listing #%d of this build was taken from %s, not from %s (stale interface index?)", i, from, w.ifn), nil
+		}
+	}
 	m := expectRA(*in)
 	if m.fail != "" {
 		return "an RA was transmitted although RA generation must fail: " + m.fail, m
